@@ -449,3 +449,48 @@ PROPS["C01"] = dict(
         assumptions=_E1_ASSUME,
     ),
 )
+
+_GRID_NOTE = ("Reference region = linear scan over the coordinates the library reports; p+e evaluated in double as the library does. Units are left to C18. "
+              "Known finding (listed): with RangeMatch::Exclusive the last element of a dimension the tag does not specify is dropped - pinned by the repository's "
+              "testFlexibleTagging, see DESIGN 10.5.")
+
+PROPS["C05"] = dict(
+    level="exploration",
+    budget_s=dict(quick=150, thorough=1500),
+    parts=[dict(name="tags", bin="C05", flavour="plain")],
+    manifest=dict(
+        engine="E2", design_ref="5 / C05",
+        technique="exhaustive input grid: array configurations (rank 1-3, every descriptor-kind combination, parameter families) x position/extent candidates on, one ulp beside, between and outside the coordinates x modes x entry points, against a reference region transcribed from the statement",
+        text="One Tag is re-stored over the product of per-axis candidates (every coordinate, +-1 ulp, midpoints, below, above, beyond the data; extents absent, 0, negative and every e "
+             "with p+e on a candidate; 0..rank+1 position entries) on arrays whose cell value is its linear index. Tag::taggedData, util::taggedData, getOffsetAndCount and featureData "
+             "(index, name, id, handle; Tagged / Untagged / Indexed) in both modes and with the defaults are compared with the reference block (extent and full content read into a "
+             "sentinel-filled buffer) or must raise.",
+        note=_GRID_NOTE),
+    evidence=dict(
+        keys=dict(evaluations=("sum", [("count", "retrievals"), ("count", "getOffsetAndCount_calls")]), distinct_nontrivial=("distinct", "outcomes")),
+        rule="case = one array configuration; inside: product of per-axis position/extent candidates (rank 1 full, rank 2 reduced, rank 3 3x3 per axis) x entry points x modes; "
+             "distinct_nontrivial = distinct (descriptor kind, position class, end class, mode, data/raises) tuples.",
+        bound=dict(quick="rank 1: all parameter sets at n in {5,2}; 5 rank-2 pairs; 2 rank-3 triples", thorough="rank 1: n in {5,1,2,3,4}; all 16 pairs and 64 triples with rotating parameters"),
+        assumptions=["doubles compared exactly", "axis coordinates are those the library reports"],
+    ),
+)
+
+PROPS["C06"] = dict(
+    level="exploration",
+    budget_s=dict(quick=300, thorough=1800),
+    parts=[dict(name="multitags", bin="C06", flavour="plain")],
+    manifest=dict(
+        engine="E2", design_ref="5 / C06",
+        technique="exhaustive input grid: array configurations x positions/extents tables (N in {1,2,3,8}; 1-D, Nx1, NxD, Nx(D-1), Nx(D+1)) x every index and index list x modes x link types, against the reference region of row i and against the list of single retrievals",
+        text="Rows are drawn from the C05 candidates into positions/extents tables; every index 0..N+1 through util::taggedData, MultiTag::taggedData, getOffsetAndCount and tagged / "
+             "untagged / indexed featureData (indexed features with N and N-1 slices), and the index lists [], [i], [i,j], [j,i], [i,i], [2,0,1], all, [i,N] are compared with the "
+             "reference region of each row, in the requested order; indices beyond the positions must raise.",
+        note=_GRID_NOTE + " The empty index list is read as the library's spelling of 'all positions'."),
+    evidence=dict(
+        keys=dict(evaluations=("sum", [("count", "retrievals"), ("count", "getOffsetAndCount_calls"), ("count", "list_retrievals")]), distinct_nontrivial=("distinct", "outcomes")),
+        rule="case = one array configuration; tables of N rows from the candidate rows in a fixed permuted order; per table every index and index list; "
+             "distinct_nontrivial = distinct (descriptor kind, position class, end class, mode, data/raises) tuples.",
+        bound=dict(quick="rank 1 at n in {5,2}; 5 rank-2 pairs; 2 rank-3 triples", thorough="all pairs; rank-3 with one rotation; N=8 lists alternate between the modes"),
+        assumptions=["doubles compared exactly", "axis coordinates are those the library reports", "every HDF5 group of the scratch files holds at most 8 links (HDF5 1.10.8 H5Oget_info failure above that, see notes)"],
+    ),
+)
